@@ -16,6 +16,7 @@ import common
 from common import driver, sx, parse_sx
 from props import c04_real as R
 from props import c04
+from props import c03_stmts as S
 
 WITNESS_ACCESS = [
     "src/psyclone/tests/test_files/dynamo0p3/infrastructure/field/field_mod.f90",
@@ -323,8 +324,190 @@ def check_generated(chk, n, sorts, known_ids):
     return dist, feats
 
 
+# ---------------------------------------------------------------- statements and expressions
+SIGN_FINDING = "C03-sign-before-mul"
+
+
+def round_trip_nodes(src, nodes=None):
+    """round_trip + node-type histogram of the first PSyIR"""
+    from psyclone.psyir.frontend.fortran import FortranReader
+    from psyclone.psyir.backend.fortran import FortranWriter
+    try:
+        p1 = FortranReader().psyir_from_source(src)
+        w1 = FortranWriter()(p1)
+    except Exception as e:
+        return "not-accepted", None, None, f"{type(e).__name__}"
+    if nodes is not None:
+        S.node_types(p1, nodes)
+    try:
+        p2 = FortranReader().psyir_from_source(w1)
+    except Exception as e:
+        return "w1-unreadable", w1, None, f"{type(e).__name__}: {str(e)[:300]}"
+    try:
+        w2 = FortranWriter()(p2)
+    except Exception as e:
+        return "w2-refused", w1, None, f"{type(e).__name__}: {str(e)[:300]}"
+    return ("stable" if w1 == w2 else "unstable"), w1, w2, ""
+
+
+class Isolator:
+    """runs packed programs; an unstable / unreadable program is split until the smallest failing one is found"""
+
+    def __init__(self, make, nodes, limit=12):
+        self.make, self.nodes, self.limit = make, nodes, limit
+        self.stable, self.failed, self.rejected, self.programs = [], [], [], 0
+
+    def run(self, members, count=True):
+        if not members or len(self.failed) >= self.limit:
+            return False
+        src, marks = self.make(members)
+        self.programs += 1
+        st, w1, w2, detail = round_trip_nodes(src, self.nodes if count else None)
+        if st == "stable":
+            self.stable += [(m, marks, w1) for m in members]
+            return False
+        if len(members) == 1:
+            if st == "not-accepted":
+                self.rejected.append(members[0])
+                return False
+            self.failed.append((members, st, src, marks, w1, w2, detail))
+            return True
+        mid = len(members) // 2
+        a = self.run(members[:mid], False)
+        b = self.run(members[mid:], False)
+        if not (a or b) and st != "not-accepted" and len(self.failed) < self.limit:
+            # only the combination fails: the group is the failing input
+            self.failed.append((members, st, src, marks, w1, w2, detail))
+            return True
+        return a or b
+
+
+def fail_payload(kind, members, st, src, w1, w2, detail, extra):
+    payload = dict(extra, src=src, kind=kind, w1=w1, with_hist=False,
+                   observed=("w2 differs from w1" if st == "unstable" else f"{st}: {detail}"),
+                   expected="w1 is readable and w2 == w1")
+    if st == "unstable":
+        rem, add = diff_lines(w1, w2)
+        payload["diff_removed"], payload["diff_added"] = rem[:20], add[:20]
+    return payload
+
+
+def op_make(members):
+    p = S.Prog()
+    for j, case, ctx in members:
+        p.add(case, ctx, j)
+    return p.source(), p.marks
+
+
+def check_operators(chk, thorough, known_ids, nodes):
+    cases = S.operator_shapes() + S.random_shapes(chk.rng, 400 if thorough else 80)
+    members = []
+    for j, c in enumerate(cases):
+        pool = S.CONTEXTS_L if c.cls == "L" else S.CONTEXTS_N
+        ctxs = pool if thorough else [pool[(j + chk.seed) % len(pool)]]
+        for ctx in ctxs:
+            members.append((j, c, ctx))
+    dist = {"shapes": len(cases), "statements": 2 * len(members)}
+    # model predictions for every expression the reader will build (the shape itself and what the position makes of it)
+    effs = [S.effective(c, ctx) for _j, c, ctx in members]
+    flat = sorted({e for es in effs for e in es})
+    mt = dict(zip(flat, S.model_texts(flat)))
+    model = [mt[c.expr] for c in cases]
+
+    def predicted_unstable(k):
+        return any(mt[e] is not None and mt[e][0] != mt[e][1] for e in effs[k])
+    # trees the model predicts to be rewritten differently run alone (they are few)
+    risky = [m for k, m in enumerate(members) if predicted_unstable(k)]
+    calm = [m for k, m in enumerate(members) if not predicted_unstable(k)]
+    dist["predicted_unstable_by_model"] = len(risky)
+    iso = Isolator(op_make, nodes, limit=10 ** 6 if SIGN_FINDING in known_ids else 12)
+    for lo in range(0, len(calm), 40):
+        iso.run(calm[lo:lo + 40])
+    seen_risky = set()
+    for m in risky:
+        key = (m[0], m[2] if m[2] in ("select", "casevalue", "section") else "")
+        if thorough or key not in seen_risky:
+            seen_risky.add(key)
+            iso.run([m])
+    dist["programs"], dist["not-accepted"] = iso.programs, len(iso.rejected)
+    pairs = {}
+    # tie on the stable ones: written text and verdict
+    for (j, c, ctx), marks, w1 in iso.stable:
+        k = "/".join(str(x) for x in c.shape[:4])
+        pairs[k] = pairs.get(k, 0) + 1
+        m = model[j]
+        if m is None:
+            dist["model-none"] = dist.get("model-none", 0) + 1
+            chk.case({"kind": "expr", "expr": c.expr, "ctx": ctx}, nontrivial=True, agreed=True)
+            continue
+        real = S.canon(S.marked_rhs(w1, marks[j]) or "?")
+        agreed = (real == m[0] and m[1] == m[0])
+        chk.case({"kind": "expr", "expr": c.expr, "ctx": ctx, "w1": real}, nontrivial=True, agreed=agreed)
+        if not agreed:
+            chk.correspondence_broken("text of a written expression / stable verdict differs from C02.render∘C02.parse",
+                                      {"expr": c.expr, "ctx": ctx, "shape": list(c.shape)}, list(m), [real, "stable"])
+    dist["distinct_shapes_stable"] = len(pairs)
+    for mem, st, src, marks, w1, w2, detail in iso.failed:
+        j, c, ctx = mem[0]
+        rem, add = diff_lines(w1, w2) if w2 is not None else ([], [])
+        if len(mem) == 1 and SIGN_FINDING in known_ids and S.model_explains(
+                st, w1, rem, add, [mt[e] for e in S.effective(c, ctx)]):
+            dist["known:" + SIGN_FINDING] = dist.get("known:" + SIGN_FINDING, 0) + 1
+            chk.case({"kind": "expr", "expr": c.expr, "ctx": ctx, "status": st}, nontrivial=True, agreed=True)
+            continue
+        if len(mem) == 1 and model[j] is not None:
+            real = [S.canon(S.marked_rhs(w1, marks[j]) or "?"),
+                    "unreadable" if w2 is None else S.canon(S.marked_rhs(w2, marks[j]) or "?")]
+            if real != list(model[j][:2]):
+                chk.correspondence_broken("text of a written expression / stable verdict differs from C02.render∘C02.parse",
+                                          {"expr": c.expr, "ctx": ctx, "shape": list(c.shape)}, list(model[j]), real)
+        chk.violation(fail_payload("operator-shape", mem, st, src, w1, w2, detail,
+                                   {"expr": [x[1].expr for x in mem][:5], "shape": [list(x[1].shape) for x in mem][:5],
+                                    "context": [x[2] for x in mem][:5]}))
+        break
+    return dist
+
+
+def stmt_make(members):
+    return S.stmt_source([m[1] for m in members]), {}
+
+
+def check_statement_kinds(chk, thorough, nodes):
+    dist = {}
+    sel = S.select_cases()
+    cat = [(n, b, {"statement": n}) for n, b in S.CATALOGUE]
+    pool = [(n, b) for n, b in S.CATALOGUE if "comment" not in n]
+    nested = []
+    for k in range(200 if thorough else 30):
+        nested.append(("nested", S.nest(chk.rng, pool, chk.rng.randint(1, 3)), {"statement": "nested"}))
+    for name, group, per in (("select-case", sel, 12), ("statement-kind", cat, 8), ("nested", nested, 6)):
+        iso = Isolator(stmt_make, nodes)
+        for lo in range(0, len(group), per):
+            iso.run(group[lo:lo + per])
+        dist[name] = {"constructs": len(group), "programs": iso.programs, "stable": len(iso.stable),
+                      "not-accepted": [m[2] for m in iso.rejected][:10]}
+        for m, _marks, _w1 in iso.stable:
+            chk.case({"kind": name, "stmt": m[1]}, nontrivial=True, agreed=True)
+        for mem, st, src, marks, w1, w2, detail in iso.failed:
+            chk.violation(fail_payload(name, mem, st, src, w1, w2, detail,
+                                       {"statements": [x[1] for x in mem][:5], "what": [x[2] for x in mem][:5]}))
+            return dist
+    return dist
+
+
+def explained_by_model(exprs, st, w1, w2):
+    rem, add = diff_lines(w1, w2) if w2 is not None else ([], [])
+    return S.model_explains(st, w1, rem, add, S.model_texts(list(exprs)))
+
+
 def replay_finding(entry, sorts):
     w = entry["witness"]
+    if entry["id"] == SIGN_FINDING:
+        for src, exprs in ((w["src"], w["exprs"]), (w["src_unreadable"], w["exprs_unreadable"])):
+            st, w1, w2, _ = round_trip(src)
+            if st in ("unstable", "w1-unreadable") and explained_by_model(exprs, st, w1, w2):
+                return True
+        return False
     if "src" in w and not w.get("files"):
         st, w1, w2, _ = round_trip(w["src"])
         return st in ("unstable", "w1-unreadable") and classify_unstable(w["src"], w1, w2 or "", sorts) == entry["id"]
@@ -367,6 +550,12 @@ def run(chk):
     if not chk.violations:
         d, f = check_generated(chk, 300 if thorough else 36, sorts, set(known))
         chk.cov["generated_distribution"], chk.cov["generator_features"] = d, f
+    nodes = {}
+    if not chk.violations:
+        chk.cov["operator_family"] = check_operators(chk, thorough, set(known), nodes)
+    if not chk.violations:
+        chk.cov["statement_families"] = check_statement_kinds(chk, thorough, nodes)
+    chk.cov["psyir_node_types_read"] = dict(sorted(nodes.items()))
     for e in known.values():
         if replay_finding(e, sorts):
             chk.known(e["what"])
@@ -396,6 +585,11 @@ def replay(payload):
     if st in ("stable", "not-accepted"):
         return 0
     known = {e["id"] for e in common.known_findings("C03")}
+    if payload.get("kind") == "operator-shape" and len(payload.get("expr", [])) == 1 and SIGN_FINDING in known:
+        effs = S.effective(S.Case(payload["expr"][0], "N", ()), payload["context"][0])
+        if explained_by_model(effs, st, w1, w2):
+            print("this instability belongs to the known finding", SIGN_FINDING)
+            return 0
     cl = classify_unstable(src if "file" in payload else w1, w1, w2 or "", writer_sorts_access())
     if cl and cl in known:
         print("this instability belongs to the known finding", cl)
